@@ -170,7 +170,7 @@ def model_check(cls, group, tier, mo, want=None):
             continue
         t0 = time.time()
         r = vlib.model_check(CLS_MODULE[cls], '%s_%s_%s' % (cls, group, tag), consts, [vlib.mo_def(mo)] + defs, invariants=invs,
-                             properties=props, spec=spec, workers=12, heap='12g', timeout=1700 if tier == 'quick' else 7000,
+                             properties=props, spec=spec, workers=12, heap='8g', timeout=1700 if tier == 'quick' else 7000,
                              workdir=os.path.join(OUT, 'work', 'mc.%d' % os.getpid()))
         res = {'cls': cls, 'group': group, 'tag': tag, 'ok': r['ok'], 'violated': r['violated'], 'states': r['distinct'],
                'transitions': r['states'], 'wall': round(time.time() - t0, 1), 'invariants': invs, 'properties': props,
@@ -501,7 +501,7 @@ def epoch_model_check(group, tier, order):
             continue
         t0 = time.time()
         r = vlib.model_check('EpochImpl', 'ep_%s_%s' % (group, tag.replace('-', '_')), consts, [], invariants=invs, properties=props,
-                             constraint=con, workers=12, heap='12g', timeout=1700 if q else 7000, workdir=os.path.join(OUT, 'work', 'mc.%d' % os.getpid()))
+                             constraint=con, workers=12, heap='8g', timeout=1700 if q else 7000, workdir=os.path.join(OUT, 'work', 'mc.%d' % os.getpid()))
         if not r['ok'] and not r['violated']:
             raise InfraError('EpochImpl model checking did not complete: ' + r['out'][-2000:])
         cex = parse_cex(r['out']) if r['violated'] else None
